@@ -393,9 +393,24 @@ def sum_ext_instances(terms, depth=2, limit=60, n_goal=0):
     return out
 
 
+WALL_FACTOR = 12
+_CLK = os.sysconf("SC_CLK_TCK") if hasattr(os, "sysconf") else 100
+
+
+def _cpu_seconds(pid):
+    """CPU time (user + system) consumed so far by a child process"""
+    try:
+        with open("/proc/%d/stat" % pid) as f:
+            parts = f.read().rsplit(")", 1)[1].split()
+        return (int(parts[11]) + int(parts[12])) / float(_CLK)
+    except Exception:      # noqa
+        return 0.0
+
+
 def _hard_check(assertions, tmo_ms, seed=0, leaves=None, grace_s=2.0):
-    """z3 check in a forked child with a hard wall-clock limit (z3's own `timeout` is not honoured inside some
-    non-linear / preprocessing phases: the same query then runs for a minute instead of a second).  Returns
+    """z3 check in a forked child with a hard limit on the child's CPU time (z3's own `timeout` is wall-clock and is not
+    honoured inside some non-linear / preprocessing phases: the same query then runs for a minute instead of a second;
+    a wall-clock limit of ours turned proofs into time-outs on a machine with fewer free cores than workers).  Returns
     (verdict, model, reason) with verdict in unsat / sat / unknown; the model is extracted in the child."""
     import pickle, select, signal
     rfd, wfd = os.pipe()
@@ -405,7 +420,9 @@ def _hard_check(assertions, tmo_ms, seed=0, leaves=None, grace_s=2.0):
         try:
             os.close(rfd)
             sx = z3.Solver()
-            sx.set("timeout", int(tmo_ms))
+            # z3's own limit is wall-clock: it is set well above the budget, which the parent enforces in CPU time of this
+            # child (a machine with fewer free cores than workers must not turn proofs into time-outs)
+            sx.set("timeout", int(tmo_ms) * WALL_FACTOR)
             sx.set("random_seed", int(seed))
             for a_ in assertions:
                 sx.add(a_)
@@ -429,18 +446,18 @@ def _hard_check(assertions, tmo_ms, seed=0, leaves=None, grace_s=2.0):
         finally:
             os._exit(code)
     os.close(wfd)
-    deadline = time.time() + tmo_ms / 1000.0 + grace_s
+    cpu_budget = tmo_ms / 1000.0 + grace_s
+    deadline = time.time() + cpu_budget * WALL_FACTOR          # wall-clock cap for a starved child
     chunks = []
     timed_out = False
     while True:
         left = deadline - time.time()
-        if left <= 0:
+        if left <= 0 or _cpu_seconds(pid) > cpu_budget:
             timed_out = True
             break
-        rl, _, _ = select.select([rfd], [], [], left)
+        rl, _, _ = select.select([rfd], [], [], min(left, 0.1))
         if not rl:
-            timed_out = True
-            break
+            continue
         b = os.read(rfd, 1 << 16)
         if not b:
             break
@@ -546,6 +563,11 @@ def _solve_inner(idx):
         for a in sum_succ_instances([goal]):
             s.add(a)
     insts = manual_instances(ob.hyps, goal, sks)
+    if sum_axioms and _mentions_decl(list(ob.hyps) + [ob.goal], "u_sum"):
+        # ground instances of sum_empty for every sum outside binders: needed by the attempts that leave the quantified
+        # sum axioms out (loop-invariant initialisation is typically "sum over an empty range is zero")
+        for t_ in _ground_sums([goal] + [h for h in ob.hyps if not _has_quantifier(h)] + list(insts))[:80]:
+            s.add(z3.Implies(t_.arg(2) <= t_.arg(1), t_ == 0))
     more_insts = []
     if sum_axioms and _mentions_decl([goal], "u_sum"):
         ext = sum_ext_instances([goal] + list(insts), n_goal=1)
